@@ -363,7 +363,18 @@ pub fn core_specs() -> Vec<Spec> {
         out.push((f, vec![])); out.push((f, vec![GV::Syn(1), GV::Syn(1)])); out.push((f, vec![i(1), GV::Syn(1)])); out.push((f, vec![i(1)]));
     }
     out.push(("nope", vec![])); out.push(("", vec![i(1)]));
-    out.into_iter().map(|(f, args)| Spec { func: f.to_string(), nodes: 2, src: CORE_SRC.to_string(), args, mode: "core".to_string() }).collect()
+    let mut specs: Vec<Spec> = out.into_iter().map(|(f, args)| Spec { func: f.to_string(), nodes: 2, src: CORE_SRC.to_string(), args, mode: "core".to_string() }).collect();
+    // `eq` on two DIFFERENT syntax nodes of the same kind that start at the same position (left-nested constructs)
+    for nsrc in ["q = a.b.c\n", "r = f()()\n", "s = a[0][1]\n", "t = a + b + c\n"] {
+        let t2 = parse_python(nsrc);
+        let i2 = TreeInfo::new(&t2, nsrc);
+        for (x, y) in same_start_pairs(&i2) {
+            for args in [vec![GV::Syn(x), GV::Syn(y)], vec![GV::Syn(y), GV::Syn(x)], vec![GV::List(vec![GV::Syn(x)]), GV::List(vec![GV::Syn(y)])], vec![GV::Syn(x), GV::Syn(x)]] {
+                specs.push(Spec { func: "eq".to_string(), nodes: 2, src: nsrc.to_string(), args, mode: "core".to_string() });
+            }
+        }
+    }
+    specs
 }
 
 fn quiet_panics() { std::panic::set_hook(Box::new(|_| {})); }
